@@ -37,7 +37,7 @@ RULE = ("param case = (library molecule, distortion seed, method, chunk of learn
         "3N x 3N Hessian; a case is non-trivial when at least one comparison with |FD| > 1e-6 (param), a parameter-path "
         "force contribution > 1e-3 eV/A (force) or a converged Hessian (hessian) was judged; distinct by SHA-1 of the case")
 ASSUMPTIONS = ["float64 CPU, one torch thread", "scf_eps 1e-11 for every evaluation (AD and FD)",
-               "orbital-energy / gap outputs judged only when neighbouring orbital energies are >= 0.02 eV apart",
+               "orbital-energy / gap outputs judged only when neighbouring orbital energies are >= 0.15 eV apart",
                "finite differences judged only when the two step sizes agree to 2e-3 relative (smooth branch; e.g. away "
                "from the hpp >= 0.1 eV clamp)",
                "parameters whose table value is zero for an element are not perturbed for that element",
@@ -66,6 +66,8 @@ TOL_H_REL = 2e-5      # * max|H|
 TOL_FREQ = 1e-3       # relative, modes above 300 cm-1
 TOL_HOOK = 1e-4       # relative, derivative of additive-term forward
 EPS = 1e-11
+MIN_SPACING = 0.15    # eV; below this the 5th derivative of an orbital energy makes the Richardson difference itself
+                      # inaccurate (measured: spacing 0.053 eV -> FD error 3e-6, identical for every backward mode)
 CONVS = [[0, 0.3], [1], [2]]
 MODES = ["leaf", "nonleaf", "callable"]
 DENSITY_OUTPUTS = ("gap", "emo", "q")
@@ -574,7 +576,7 @@ def _run_param(case):
     cvec = {"emo": torch.tensor(g.normal(size=norb)), "q": torch.tensor(g.normal(size=nat))}
     e = ref["e"].detach().numpy()
     spacing = float(np.min(np.diff(np.sort(e)))) if norb > 1 else 9.0
-    emo_ok = spacing >= 0.02
+    emo_ok = spacing >= MIN_SPACING
     fd, fd_bad = {}, {}
     C["fd_energy_evaluations"] += 1
     for n in names:
@@ -784,6 +786,20 @@ def _run_param(case):
                 # every mismatch vanished under the neutralisers applied so far: record how well AD == FD then
                 w = worst_ratio(res_n, sb)
                 upd("residual_after_neutralisers(%s)" % "+".join(neutral), w)
+        if remaining and sb == 2 and CONVS[ci][0] == 2:
+            # unrolled back-propagation through Pulay/DIIS: the extrapolation coefficients are constants for autograd, so
+            # the tangent converges more slowly than the density itself and the loop stops on the density alone
+            try:
+                res_n, st_n = ad_run([mode, 2, 1], ["deepcopy"] if observed_with else [])
+            except Exception:
+                res_n = None
+            if res_n is not None:
+                C["attribution_replays"] += 1
+                still = {(b[0], b[1]) for b in judge(res_n, sb)}
+                for kk in list(remaining):
+                    if kk not in still and kk[0] in DENSITY_OUTPUTS:
+                        labels[kk] = "unrolled-pulay-gradient-lags-scf-convergence"
+                        del remaining[kk]
         per = {}
         for b in bad:
             mech = labels.get((b[0], b[1]))
